@@ -88,6 +88,7 @@ def build_graph_table(rng, length, shape, cyclic, nconfigs, extra_values):
 
     # the reference may sit in every configuration of a node, or only in the later ones (the first variant then holds a plain string)
     ref_not_in_first = nconfigs >= 2 and rng.random() < 0.4
+    null_refs = rng.random() < 0.3
     for i in range(length):
         last = i == length - 1
         if last and not cyclic:
@@ -104,6 +105,8 @@ def build_graph_table(rng, length, shape, cyclic, nconfigs, extra_values):
                 concrete.append(s0)
             if shape == "complex" and i == 0:
                 items = [(0x02000000, v)]
+                if null_refs:
+                    items.insert(rng.randrange(2), (0x02000005, R.Value(R.T_REF, 0)))      # @null: an empty reference denotes no value
                 if extra_values:
                     s = "item-%d" % rng.randrange(10 ** 6)
                     items.append((0x02000001, R.Value(R.T_STRING, string=s)))
@@ -115,6 +118,9 @@ def build_graph_table(rng, length, shape, cyclic, nconfigs, extra_values):
             else:
                 ek = "compact" if shape == "compact" or (shape == "mixed" and rng.random() < 0.5) else "plain"
                 put(str_entries, cfg, i, R.Entry("node%d" % i, ek, value=v))
+        if null_refs and rng.random() < 0.5 and not (shape == "complex" and i == 0) and shape != "compact":
+            # one more configuration of this node holds @null (plain entry): nothing to report for it
+            put(str_entries, R.Config("ko", ""), i, R.Entry("node%d" % i, "plain", value=R.Value(R.T_REF, 0)))
         if extra_values and rng.random() < 0.6 and not (shape == "complex" and i == 0):
             s = "side-%d-%d" % (i, rng.randrange(10 ** 6))
             put(str_entries, extra_cfg, i, R.Entry("node%d" % i, "plain", value=R.Value(R.T_STRING, string=s)))
@@ -165,6 +171,8 @@ def run_resolver(a, rid, budget, config=None):
 
 def one(ctx, rng, length, shape, cyclic, nconfigs, extra, budget, calibrate=None):
     from androguard.core.axml import ARSCParser, ARSCResTableConfig
+    global PID
+    PID = rng.choice([0x7F, 0x7F, 0x7F, 0x01, 0x02, 0x7E])     # the app's own package, the framework's id, a shared library, a feature split
     m, start, concrete = build_graph_table(rng, length, shape, cyclic, nconfigs, extra)
     data = R.build(m.table)
     R.selfcheck(m.table, data)
@@ -172,7 +180,7 @@ def one(ctx, rng, length, shape, cyclic, nconfigs, extra, budget, calibrate=None
     a.get_packages_names()
     a._analyse() if hasattr(a, "_analyse") else None  # parsing/analysis is not what is budgeted
     kind = "cycle" if cyclic else "chain"
-    wit = {"length": length, "shape": shape, "kind": kind, "configs_per_node": nconfigs, "extra_values": extra, "start": "%08x" % start, "arsc_hex": data.hex() if len(data) < 3000 else None}
+    wit = {"package_id": PID, "length": length, "shape": shape, "kind": kind, "configs_per_node": nconfigs, "extra_values": extra, "start": "%08x" % start, "arsc_hex": data.hex() if len(data) < 3000 else None}
     for cfgmode in ("all", "default"):
         cfg = ARSCResTableConfig.default_config() if cfgmode == "default" else None
         ctx.ev()
@@ -198,6 +206,11 @@ def one(ctx, rng, length, shape, cyclic, nconfigs, extra, budget, calibrate=None
             if missing:
                 ctx.violation("%s-len-%d-%s-value-missing" % (kind, length, shape), "a concrete value reachable from the id is not in the result",
                               dict(wit, missing=missing, got=[repr(x)[:200] for x in res[:8]]))
+                continue
+            made_up = [s for s in flat if s not in concrete]
+            if made_up:
+                ctx.violation("%s-%s-value-not-in-the-table" % (kind, shape), "the result holds a value that no entry reachable from the id stores",
+                              dict(wit, made_up=made_up[:5], stored=concrete[:8]))
                 continue
             if not cyclic:
                 r = c28.match_resolution(c28.expected_resolution(m, start), res)
@@ -230,6 +243,8 @@ def one(ctx, rng, length, shape, cyclic, nconfigs, extra, budget, calibrate=None
 def apk_case(ctx, rng, length):
     """label and icon of the application sit on a reference cycle of the given length"""
     from androguard.core.apk import APK
+    global PID
+    PID = 0x7F    # the manifest below refers to 0x7F......
     cfg = R.Config()
     n = max(length, 1)
     strs = {i: R.Entry("app_name" if i == 0 else "alias%d" % i, "plain", value=R.Value(R.T_REF, (PID << 24) | (1 << 16) | ((i + 1) % n))) for i in range(n)}
